@@ -7,6 +7,7 @@ Correspondence: the `c/` namespace and the override keys as the file system show
 step (`blobs` stream) vs the model. Oracle: integrity scanner on the real tree + held mementos
 re-read through a cache-less twin backend.
 """
+import hashlib
 import json
 import os
 import sys
@@ -134,6 +135,9 @@ CORPUS = [
     # a partition whose last value cannot be serialised: the failed write must leave the objects other mementos read alone
     [["memoize", 1, 1, None, 1], ["memoize", 1, 2, None, 10], ["memoize", 4, 1, None, 1000], ["memoize_bad", 4, 2, None, 1016], ["lookread", 1, 1], ["lookread", 1, 2], ["lookread", 4, 1]],
     [["memoize", 1, 1, 1, 1001], ["memoize_bad", 4, 1, 1, 1017], ["lookread", 1, 1], ["memoize", 4, 1, 1, 1002], ["lookread", 1, 1], ["lookread", 4, 1]],
+    # a partition that cannot be written (failed half-way), then several writes to one override key: each keeps its own object
+    [["memoize_bad", 4, 1, None, 1016], ["memoize", 1, 1, 1, 3], ["memoize", 1, 2, 1, 5], ["memoize", 1, 3, 1, 6], ["lookread", 1, 1], ["lookread", 1, 2], ["lookread", 1, 3]],
+    [["memoize_bad", 4, 1, 2, 1017], ["memoize", 1, 1, 1, 3], ["memoize", 4, 2, 1, 5], ["memoize_bad", 4, 3, 1, 1018], ["memoize", 1, 2, 1, 6], ["lookread", 1, 1], ["lookread", 4, 2]],
     # two writes to one override key while the process-wide random generator is in the same state (bodies that seed it)
     [["rseed", 7], ["memoize", 1, 1, 1, 3], ["rseed", 7], ["memoize", 4, 1, 1, 5], ["lookread", 1, 1], ["lookread", 4, 1]],
     [["rseed", 1], ["memoize", 1, 1, 2, 1001], ["rseed", 1], ["memoize", 1, 2, 2, 1002], ["lookread", 1, 1], ["rseed", 1], ["memoize", 4, 1, None, 6], ["rseed", 1], ["memoize", 4, 2, None, 7], ["lookread", 4, 1]],
@@ -203,6 +207,40 @@ def relayed(x):
 _mp_n = [0]
 
 
+def exact_size_scenario(root):
+    """results whose serialized form is exactly 1 MiB / 2 MiB long, and one byte around: the bytes under a content key hash to it.
+    (The serialized length of a bytes result is its own length plus a constant; every length in a window below the power of two
+    is stored, so one of them hits it whatever the constant is.)"""
+    from twosigma.memento.metadata import ResultType
+    w = sw.World(dict(kind="fs", separate=False, budget=None), root=root)
+    fails = []
+    try:
+        mid = 0
+        sizes = []
+        for k in (1, 2):
+            sizes += list(range(k * 1048576 - 48, k * 1048576 + 2))
+        hit = []
+        for i, n in enumerate(sizes):
+            obj = bytes([i % 251]) * n
+            mid += 1
+            m = w.mfns.make_memento(w.fwa[(1, 1 + i % 3)], result_type=ResultType.from_object(obj), seq=mid)
+            w.be.memoize(None, m, obj)
+            del obj
+        vdir = os.path.join(w.data_dir, "c", ".versions")
+        for u in sorted(os.listdir(vdir)):
+            for name in os.listdir(os.path.join(vdir, u)):
+                data = open(os.path.join(vdir, u, name), "rb").read()
+                if len(data) % 1048576 == 0:
+                    hit.append(len(data))
+                if hashlib.sha256(data).hexdigest() != name:
+                    fails.append(dict(clause="content-key-is-sha256-of-bytes", path="c/.versions/%s/%s" % (u, name), serialized_bytes=len(data)))
+        if not hit:
+            raise common.Infra("no stored object of exactly k MiB among %d sizes" % len(sizes))
+    finally:
+        w.close()
+    return fails
+
+
 def merged_partition_scenario(root):
     """partitions merged on top of a parent — a parent of the same store, and a parent that lives in another cluster's store
     while the child's store already holds a value with the bytes of one of the parent's values: after every call every file
@@ -267,6 +305,10 @@ def merged_partition_scenario(root):
 
 
 def main(chk, replay=None):
+    if replay is not None and replay.get("exact_size"):
+        ef = exact_size_scenario(None)
+        print(json.dumps(dict(still_fails=bool(ef), observed=ef[:3]), default=str))
+        return 1 if ef else 0
     if replay is not None and replay.get("merged"):
         mf = merged_partition_scenario(None)
         print(json.dumps(dict(still_fails=bool(mf), observed=mf[:3]), default=str))
@@ -312,6 +354,12 @@ def main(chk, replay=None):
     if mf:
         chk.violation({"what": "data area integrity (merged partitions): %s" % mf[0]["clause"], "class": {"clause": mf[0]["clause"], "scenario": "merged-partitions"},
                        "merged": True, "observed": mf[:3]})
+    ef = exact_size_scenario(chk.tmpdir())
+    chk.case(["exact-size-results"], nontrivial=True, sample=dict(kind="results whose serialized form is exactly 1 MiB / 2 MiB long, and around"))
+    chk.count("exact-size-results", 100)
+    if ef:
+        chk.violation({"what": "data area integrity (result of %s serialized bytes): %s" % (ef[0].get("serialized_bytes"), ef[0]["clause"]),
+                       "class": {"clause": ef[0]["clause"], "scenario": "exact-size"}, "exact_size": True, "observed": ef[:3]})
     for ops in CORPUS:
         go(ops, "corpus")
     for i in range(n):
